@@ -758,7 +758,18 @@ def _order_rewrite(fn):
                 plain(E):
             G = t[3]
     if G is None:
-        return False
+        # unguarded: wrong when the members removed are read straight off
+        # the merged vertex's own list (it may repeat a member, and holds
+        # the one replaced); a collection made from it first is not read
+        e = plain(E)
+        src = e[1] if e[0] == "elem" else None
+        if src is not None and src[0] == "item" and src[2][0] == "slice":
+            src = src[1]
+        if src is not None and src[0] == "attr" and src[2] == "vertices":
+            return False
+        raise AnalysisError("sequential.place: the members removed from the "
+                            "vertex order come from a collection built "
+                            "beforehand; not analysed")
     # the member replaced: vertex_order[vertex_order.index(R)] = merged
     R = None
     for n, st, base, key, val in stores(T):
